@@ -283,6 +283,22 @@ def processor_level(sp, case, scen_ref, col, flags):
                                   flags, where={'dir': 'missing' if want - have else 'extra', 'level': 'processor'})
 
 
+def sibling_with_moved_exclusion(sp, rnd):
+    import copy
+    sp = S.normalize(sp)
+    for ik, k in enumerate(sp['conn']):
+        tn = S.conn_endpoints(k, 'tgt')
+        if k.get('exclude') and len(tn) > 1:
+            s0, t0 = k['exclude'][0]
+            others = [t for t in tn if t != t0 and [s0, t] not in k['exclude']]
+            if others:
+                sib = copy.deepcopy(sp)
+                sib.pop('features', None)
+                sib['conn'][ik]['exclude'][0] = [s0, rnd.choice(others)]
+                return sib
+    return None
+
+
 def worker(task, col):
     import adsg_core.graph.adsg_nodes as an
     M.Tap(an.ConnectionChoiceNode, 'iter_conn_edges', counter=col.count)
@@ -296,6 +312,12 @@ def worker(task, col):
     for i in range(task['lo'], task['hi']):
         name, sp = case_spec(task['seed'], i)
         common.guard(col, check_case, sp, col, name)
+        # a sibling design space in the same process (same on-disk caches): identical connectors, the exclusion edge
+        # moved to another target of the same source
+        sib = sibling_with_moved_exclusion(sp, gen.rng_for('c11sib', task['seed'], i))
+        if sib is not None:
+            col.count('sibling_cases')
+            common.guard(col, check_case, sib, col, name + '_sibling')
 
 
 def main(run):
